@@ -277,4 +277,9 @@ example : Reach 1 false (init [Msg.res [⟨1, 1⟩]]) cOk := by
   have s3 := Step.finish (n := 1) (closing := false) { c1 with resCh := [], got := 1, acc := [[⟨1, 1⟩]] } rfl rfl
   exact .step (.step (.step .refl s1) s2) s3
 
+
+/-- the plan names every partition, on one replica drawn from its list, member or not: a replica that
+cannot be reached fails the search, it does not take the partition out of it (regenerated) -/
+theorem search_plan_names_every_partition : Generated.searchPlanNamesEveryPartition = true := by decide
+
 end Anndb.C09
